@@ -51,6 +51,10 @@ func main() {
 		os.Exit(cmdReplay(os.Args[2:]))
 	case "writers":
 		os.Exit(cmdWriters(os.Args[2:]))
+	case "heavy":
+		os.Exit(cmdHeavy(os.Args[2:]))
+	case "path":
+		os.Exit(cmdPath(os.Args[2:]))
 	default:
 		fmt.Fprintln(os.Stderr, "unknown command", os.Args[1])
 		os.Exit(2)
@@ -303,6 +307,14 @@ func (r *Run) report(all []*Obligation, unbound, engErrs []string) int {
 		trusted = append(trusted, "trusted contract: "+shortFuncName(t))
 	}
 	sort.Strings(trusted)
+	var tframes []string
+	for k := range r.Eng.frame.usedTrustedFrames {
+		if !r.Trusted[k] {
+			tframes = append(tframes, "trusted frame (assigns clause) used by the frame analysis: "+shortFuncName(k))
+		}
+	}
+	sort.Strings(tframes)
+	trusted = append(trusted, tframes...)
 	trusted = append(trusted, r.Spec.TrustedBase...)
 	trusted = append(trusted, "govc translation of the Go subset (DESIGN.md §3.4)", "go/types", "z3 4.8.12 / z3 5.1.0 / cvc5 1.0.3")
 	assumptions := []string{"integers are mathematical in mode int (no overflow obligations)", "panics only at safe-* sites of functions marked safe", "sequential semantics (no interleaving)", "slices have value semantics (aliasing through shared backing arrays is not modelled)"}
